@@ -166,6 +166,19 @@ Theorem C08_direct_run_keeps_sum :
 Proof. exact run_not_all_keeps_sum. Qed.
 Print Assumptions C08_direct_run_keeps_sum.
 
+(* 6b. The caller's context.  Execute never asks its context whether the caller has given up (Model/SumCache.v,
+       [run_ctx]): a run whose context is cancelled — before the call, while some package is generated, by a
+       deadline — IS the ordinary run on the same arguments.  Every theorem of this file therefore speaks about
+       cancelled runs too: such a run visits its whole scope, returns no error of its own, and saves the
+       load-time hashes of packages it has all judged. *)
+Theorem C08_cancelled_run_is_run :
+  forall (tree content : Type) (H : content -> option bytes) (dirc : tree -> option bytes -> bytes -> content)
+         (gen : tree -> bytes -> tree) (locals : tree -> list bytes -> list (bytes * bool))
+         (fx : fixes) (c : ctxstate) (a : runargs) (st : state tree),
+    run_ctx tree content H dirc gen locals fx c a st = run tree content H dirc gen locals fx a st.
+Proof. exact run_ctx_is_run. Qed.
+Print Assumptions C08_cancelled_run_is_run.
+
 (* 7. Convergence.  If generated files are a function of their package's own sources (gen is idempotent and
       generators of different packages commute), generating touches only that package's directory (and the
       directories that contain it), generated files do not change which packages are loaded, and every
